@@ -619,7 +619,7 @@ REGISTRY = {
     'C09': dict(modules=['LibconfigModel.Properties.C09'], run=run_C09, assumptions=COMMON_ASSUMPTIONS),
     'C08': dict(modules=['LibconfigModel.Properties.C08'], run=run_C08, assumptions=COMMON_ASSUMPTIONS),
     'C02': dict(modules=['LibconfigModel.Properties.C02'], run=run_C02, assumptions=COMMON_ASSUMPTIONS),
-    'C04': dict(modules=['LibconfigModel.Properties.C04'], run=run_C04, assumptions=COMMON_ASSUMPTIONS),
+    'C04': dict(modules=['LibconfigModel.Properties.C04', 'LibconfigModel.Properties.C04Read'], run=run_C04, assumptions=COMMON_ASSUMPTIONS),
     'C05': dict(modules=['LibconfigModel.Properties.C05'], run=run_C05, assumptions=COMMON_ASSUMPTIONS),
     'C06': dict(modules=['LibconfigModel.Properties.C06'], run=run_C06, assumptions=COMMON_ASSUMPTIONS),
     'C07': dict(modules=['LibconfigModel.Properties.C07'], run=run_C07, assumptions=COMMON_ASSUMPTIONS),
